@@ -12,4 +12,6 @@ CaseInit == /\ cid \in 1..Len(Cases)
 CaseNext == LET c == Cases[cid]
             IN  \/ c.path = "mem" /\ (Export(c.reset) \/ Import)
                 \/ c.path = "file" /\ (Write(c.update, c.reset) \/ Load)
+                \/ c.path = "obj" /\ (Export(c.reset) \/ Import \/ EditLoaded(c.edit) \/ Reexport(c.reset))
+                \/ c.path = "fobj" /\ (Write(c.update, c.reset) \/ Load \/ EditLoaded(c.edit) \/ Reexport(c.reset))
 =============================================================================
